@@ -5,6 +5,15 @@ VERIF = os.path.dirname(os.path.dirname(os.path.abspath(__file__)))
 props = [json.loads(l) for l in open(os.path.join(VERIF, "properties.jsonl"))]
 
 CLAIMED = {
+    "C02": dict(
+        text="Aldi.tla defines derivative trees by the textbook rules and, independently, forward-mode dual numbers; on the rational fragment TLC "
+             "evaluates both exactly and checks that they agree for every enumerated tree and occurrence. Every tree becomes an equation of a "
+             "model (source text from the spec); systemize() is read through the implementation's own token labels and, per dated occurrence, "
+             "the A/B cells of the equation's row are compared with the spec's derivative tree (chain rule for log-variables); a construct is "
+             "either differentiated to that value or rejected.",
+        note="Trusted: TLC, the harness' tree evaluator with math/scipy primitives. Bounds: trees of depth <= 2 (quick: seeded 6% of the depth-2 ones), "
+             "one evaluation point (x=2, y=3, p=1/4, all shifts equal), positive bases for ^, kinks excluded. Steady and stacked-time Jacobians only via C05/C06.",
+        design="5/C02", technique="TLA+ spec (Aldi) model-checked by TLC on the rational fragment; every TLC-generated tree replayed into irispie's systemize()"),
     "C03": dict(
         text="KalmanMC.tla builds the joint Gaussian distribution of states, measurement variables and shocks of three periods from the library's "
              "reduced form (unconditional start = exact Lyapunov solution) and obtains predicted/updated/smoothed means and variances, one-step "
